@@ -229,4 +229,73 @@ theorem calculateOrderFull_explicit (var : Variant) (op : OP) (s : SysF) (x v : 
     cases value var op _ <;> rfl
   · simp [calculateOrderFull, calculate, effects_eq, SysF.toSys]
 
+/-- the positions / velocities / box the System holds after the assignments of `calculate_order` -/
+def coPos (s : SysF) (xyz : Option (List V3)) : List V3 := xyz.getD s.pos
+def coVel (s : SysF) (vel : Option (List V3)) : List V3 :=
+  match vel with
+  | some v => if s.velRev then v.map V3.neg else v
+  | none => s.vel
+def coBox (s : SysF) (box : Option (List ℚ)) : Option (List ℚ) :=
+  match box with
+  | some b => some b
+  | none => s.box
+
+/-- normal form of `calculateOrderFull`: which arrays are used, then `calculate` on them -/
+theorem calculateOrderFull_eq (var : Variant) (fn : Option OP) (s : SysF) (xyz vel : Option (List V3))
+    (box : Option (List ℚ)) (file : Config) :
+    calculateOrderFull var fn s xyz vel box file =
+      (let read := xyz.isNone || vel.isNone || box.isNone
+       let P := coPos s (if read then file.xyz else xyz)
+       let V := coVel s (if read then file.vel else vel)
+       let B := coBox s (if read then file.box else box)
+       match fn with
+       | none => ⟨.error .noOrderFunction, ⟨P, V, B, s.velRev⟩, read⟩
+       | some op => ⟨liftCO (value var op ⟨P, V, B⟩), ⟨P, V, B, s.velRev⟩, read⟩) := by
+  simp only [calculateOrderFull]
+  generalize (if (xyz.isNone || vel.isNone || box.isNone) = true then file.xyz else xyz) = X
+  generalize (if (xyz.isNone || vel.isNone || box.isNone) = true then file.vel else vel) = V
+  generalize (if (xyz.isNone || vel.isNone || box.isNone) = true then file.box else box) = B
+  cases fn with
+  | none => cases X <;> cases V <;> cases B <;> rfl
+  | some op =>
+    cases X <;> cases V <;> cases B <;>
+      simp only [calculate, effects_eq, SysF.toSys, coPos, coVel, coBox, Option.getD, liftCO] <;>
+      (split <;> simp_all [liftCO])
+
+/-! ### Cremer–Pople: mean-plane conditions and amplitude -/
+
+/-- unconditional Parseval identity on six points (the discrete Fourier transform behind eq. 12–14 of
+    Cremer & Pople) -/
+theorem parseval6 (z0 z1 z2 z3 z4 z5 : ℚ) :
+    z0 * z0 + z1 * z1 + z2 * z2 + z3 * z3 + z4 * z4 + z5 * z5 =
+      (1 / 6) * ((z0 + z1 + z2 + z3 + z4 + z5) ^ 2
+        + 2 * (z0 + (1 / 2) * (z1 - z2 - z4 + z5) - z3) ^ 2 + (3 / 2) * (z1 + z2 - z4 - z5) ^ 2
+        + 2 * (z0 - (1 / 2) * z1 - (1 / 2) * z2 + z3 - (1 / 2) * z4 - (1 / 2) * z5) ^ 2
+        + (3 / 2) * (z1 - z2 + z4 - z5) ^ 2
+        + (z0 - z1 + z2 - z3 + z4 - z5) ^ 2) := by ring
+
+/-- Σ z_j = 0 (the ring is centred) -/
+theorem plane_sum (r : Ring6) :
+    V3.dot (puckerOf r).q.p0 (puckerOf r).normal + V3.dot (puckerOf r).q.p1 (puckerOf r).normal
+      + V3.dot (puckerOf r).q.p2 (puckerOf r).normal + V3.dot (puckerOf r).q.p3 (puckerOf r).normal
+      + V3.dot (puckerOf r).q.p4 (puckerOf r).normal + V3.dot (puckerOf r).q.p5 (puckerOf r).normal = 0 := by
+  simp only [puckerOf, centre, ringA, ringB, V3.dot, V3.cross, V3.sub, V3.add, V3.smul]
+  ring
+
+/-- Σ z_j sin(2πj/6) = 0 (times 2/√3): `R′ · n = 0` -/
+theorem plane_sin (r : Ring6) :
+    V3.dot (puckerOf r).q.p1 (puckerOf r).normal + V3.dot (puckerOf r).q.p2 (puckerOf r).normal
+      - V3.dot (puckerOf r).q.p4 (puckerOf r).normal - V3.dot (puckerOf r).q.p5 (puckerOf r).normal = 0 := by
+  simp only [puckerOf, centre, ringA, ringB, V3.dot, V3.cross, V3.sub, V3.add, V3.smul]
+  ring
+
+/-- Σ z_j cos(2πj/6) = 0: `R″ · n = 0` -/
+theorem plane_cos (r : Ring6) :
+    V3.dot (puckerOf r).q.p0 (puckerOf r).normal
+      + (1 / 2) * (V3.dot (puckerOf r).q.p1 (puckerOf r).normal - V3.dot (puckerOf r).q.p2 (puckerOf r).normal
+        - V3.dot (puckerOf r).q.p4 (puckerOf r).normal + V3.dot (puckerOf r).q.p5 (puckerOf r).normal)
+      - V3.dot (puckerOf r).q.p3 (puckerOf r).normal = 0 := by
+  simp only [puckerOf, centre, ringA, ringB, V3.dot, V3.cross, V3.sub, V3.add, V3.smul]
+  ring
+
 end Infretis.Geom
